@@ -25,6 +25,7 @@ import (
 	"sort"
 	"strconv"
 	"strings"
+	"time"
 
 	sp "github.com/scipipe/scipipe"
 	"github.com/scipipe/scipipe/components"
@@ -339,6 +340,9 @@ func (r *recorder) Run() {
 	lines := []string{}
 	if r.InPort("in").Ready() {
 		for ip := range r.InPort("in").Chan {
+			if d := slowMillis(r.Name()); d > 0 {
+				time.Sleep(time.Duration(d) * time.Millisecond)
+			}
 			tags := []string{}
 			for k, v := range ip.Tags() {
 				tags = append(tags, hx(k)+"="+hx(v))
@@ -353,4 +357,17 @@ func (r *recorder) Run() {
 		}
 	}
 	ioutil.WriteFile("REC."+r.Name(), []byte(strings.Join(lines, "\n")+"\n"), 0644)
+}
+
+// slowMillis: a recorder named ..._slow<ms> waits that long before it takes the next item (a slow consumer)
+func slowMillis(name string) int {
+	i := strings.LastIndex(name, "_slow")
+	if i < 0 {
+		return 0
+	}
+	n, err := strconv.Atoi(name[i+5:])
+	if err != nil {
+		return 0
+	}
+	return n
 }
